@@ -36,10 +36,16 @@
 (* may be ignored or refused; numbers beyond 9 digits are not evaluated).  *)
 (*                                                                         *)
 (* Universal clauses, for EVERY response whatever the request (Universal): *)
-(* a non-2xx/3xx response has a JSON OCI error body, a standard error code *)
-(* comes with its standard status, a Content-Length header equals the body *)
-(* length, no backend call carries an invalid repository, tag or digest,   *)
-(* every reader / writer obtained from the backend has been closed.        *)
+(* the status is 2xx or 4xx/5xx; an error response has a JSON OCI error    *)
+(* body declared as application/json; a standard error code comes with its *)
+(* standard status; a Content-Length header equals the body length; no     *)
+(* backend call carries an invalid repository, tag or digest; every reader *)
+(* / writer obtained from the backend has been closed.  (A panic is an     *)
+(* event without an action in OciWireTrace.)                               *)
+(*                                                                         *)
+(* The backend is quantified over as a script: any of its answers may be   *)
+(* success or any error, a writer may report any ID - one that cannot be   *)
+(* put into a Location (empty, not UTF-8) must lead to an error response.  *)
 (*                                                                         *)
 (* Bound to ociregistry/ociserver/*.go, internal/ocirequest/request.go     *)
 (* and error.go by OciWireMC (direction A) and OciWireTrace (direction B). *)
